@@ -50,6 +50,15 @@ EXHAUSTIVE_SUBSPACES = {
     "thorough": ["26 shapes x 14 defaults x 8 positions"],
 }
 
+ANCHORS = [
+    "statham.schema.parser:_parse_composition",
+    "statham.schema.parser:_parse_multi_typed",
+    "statham.schema.parser:_parse_literal",
+    "statham.schema.elements.meta:ObjectMeta.python",
+    "statham.schema.elements.object:Object.__init_subclass__",
+    "statham.serializers.json:_serialize_element",
+]
+
 
 def plan(tier):
     if tier == "quick":
